@@ -1354,3 +1354,170 @@ func ruleStreamRequestsAnswered(p *Program, r *Report) {
 }
 
 func init() { register("C17", Rule{"R17j", ruleStreamRequestsAnswered}) }
+
+// R17k: no lock shared with an observer callback is held across a rendezvous with the engine.  Observer callbacks
+// (the function values given to Engine.Observe) run on the engine goroutine, in the middle of a notification round.
+// Every client call into the engine (Update, Observe, a cancel function, Stop, Hangup) is a rendezvous on an
+// unbuffered channel that only that goroutine serves.  A front end that holds a mutex while it makes such a call,
+// when a callback takes the same mutex, deadlocks as soon as the call meets a notification round: the caller waits
+// for the engine, the engine waits in the callback for the mutex — and every later request of every client hangs.
+func ruleNoLockAcrossRendezvous(p *Program, r *Report) {
+	r.Begin("R17k", "no lock held across a rendezvous with the engine if an observer callback takes it: for every mutex acquired inside a function value passed to Engine.Observe (or a closure it calls), no call of an Engine method that communicates with the engine goroutine, and no call of a cancel function returned by Observe, is made while that mutex is held", 0)
+	defer r.End()
+	observe := p.Method("engine", "Engine", "Observe")
+	if observe == nil {
+		r.Undecided("anchor", "(*engine.Engine).Observe not found", 0)
+		return
+	}
+	computeEntryLocks(p)
+	cc := &concClosure{p: p, concParams: map[*ssa.Function]map[int]bool{}, concFuncs: map[*ssa.Function]string{}}
+	// rendezvous methods: Engine methods that send on / receive from a channel
+	rendezvous := map[*ssa.Function]bool{}
+	for _, fn := range p.RepoFns {
+		if fn.Signature.Recv() == nil || PkgPathOf(fn) != Mod+"/engine" {
+			continue
+		}
+		if nt, ok := Deref(fn.Signature.Recv().Type()).(*types.Named); !ok || nt.Obj().Name() != "Engine" {
+			continue
+		}
+		comm := false
+		var body []*ssa.Function
+		allFuncs(fn, &body)
+		for _, g := range body {
+			ForEachInstr(g, func(ins ssa.Instruction) {
+				switch x := ins.(type) {
+				case *ssa.Send, *ssa.Select:
+					comm = true
+				case *ssa.UnOp:
+					if x.Op == token.ARROW {
+						comm = true
+					}
+				}
+			})
+		}
+		if comm {
+			rendezvous[fn] = true
+		}
+	}
+	// locks taken by observer callbacks
+	cbLocks := map[string]string{}
+	nObs := 0
+	for _, fn := range p.RepoFns {
+		ForEachInstr(fn, func(ins ssa.Instruction) {
+			c, ok := ins.(ssa.CallInstruction)
+			if !ok || c.Common().StaticCallee() != observe {
+				return
+			}
+			nObs++
+			for _, a := range c.Common().Args {
+				if _, isSig := a.Type().Underlying().(*types.Signature); !isSig {
+					continue
+				}
+				fs, _ := cc.resolveFuncValue(a, 0, map[ssa.Value]bool{})
+				for _, cb := range fs {
+					var body []*ssa.Function
+					allFuncs(cb, &body)
+					for _, g := range body {
+						ForEachInstr(g, func(i2 ssa.Instruction) {
+							if c2, ok := i2.(ssa.CallInstruction); ok {
+								if op, key, is := lockOp(c2.Common()); is && (op == "lock" || op == "rlock") && key != "?" {
+									cbLocks[key] = FnName(cb)
+								}
+							}
+						})
+					}
+				}
+			}
+		})
+	}
+	isCancelCall := func(c ssa.CallInstruction) bool {
+		com := c.Common()
+		if com.StaticCallee() != nil || com.IsInvoke() {
+			return false
+		}
+		var fromObserveRec func(v ssa.Value, seen map[ssa.Value]bool) bool
+		fromObserveRec = func(v ssa.Value, seen map[ssa.Value]bool) bool {
+			if v == nil || seen[v] {
+				return false
+			}
+			seen[v] = true
+			if ph, ok := v.(*ssa.Phi); ok { // a local variable that is reassigned: any of its definitions
+				for _, e := range ph.Edges {
+					if fromObserveRec(e, seen) {
+						return true
+					}
+				}
+				return false
+			}
+			cl := CallOf(v)
+			return cl != nil && cl.Call.StaticCallee() == observe
+		}
+		fromObserve := func(v ssa.Value) bool { return fromObserveRec(v, map[ssa.Value]bool{}) }
+		if fromObserve(com.Value) {
+			return true
+		}
+		var cell ssa.Value
+		if ld, ok := com.Value.(*ssa.UnOp); ok && ld.Op == token.MUL {
+			cell = ld.X
+			if fv, ok := cell.(*ssa.FreeVar); ok {
+				if b := bindingOf(fv); b != nil {
+					cell = b
+				}
+			}
+		}
+		if cell == nil || cell.Referrers() == nil {
+			return false
+		}
+		for _, ref := range *cell.Referrers() {
+			if st, ok := ref.(*ssa.Store); ok && st.Addr == cell && fromObserve(st.Val) {
+				return true
+			}
+		}
+		return false
+	}
+	n := 0
+	ord := map[string]int{}
+	for _, fn := range p.RepoFns {
+		if fn.Blocks == nil || PkgPathOf(fn) == Mod+"/engine" {
+			continue
+		}
+		var held map[ssa.Instruction]map[string]bool
+		ForEachInstr(fn, func(ins ssa.Instruction) {
+			c, ok := ins.(ssa.CallInstruction)
+			if !ok {
+				return
+			}
+			what := ""
+			if g := c.Common().StaticCallee(); g != nil && rendezvous[g] {
+				what = FnName(g)
+			} else if isCancelCall(c) {
+				what = "the cancel function returned by Observe"
+			}
+			if what == "" {
+				return
+			}
+			n++
+			r.Fn(FnName(fn))
+			if held == nil {
+				held = heldLocks(fn)
+			}
+			key := "rendezvous@" + FnName(fn)
+			ord[key]++
+			if ord[key] > 1 {
+				key = fmt.Sprintf("%s~%d", key, ord[key])
+			}
+			for l := range held[ins] {
+				if cb, shared := cbLocks[l]; shared {
+					r.Viol(key, fmt.Sprintf("%s calls %s while holding %s, which the observer callback %s also takes: the call waits for the engine goroutine, and the engine goroutine — in the middle of a notification round — waits in the callback for the lock; neither moves again and every later request hangs", FnName(fn), what, l, cb), p.InstrPos(ins))
+					return
+				}
+			}
+			r.OK(key, "no callback lock held at "+what, p.InstrPos(ins))
+		})
+	}
+	if nObs == 0 {
+		r.Undecided("sites", "no call of Engine.Observe found in the module", 0)
+	}
+}
+
+func init() { register("C17", Rule{"R17k", ruleNoLockAcrossRendezvous}) }
